@@ -1532,6 +1532,142 @@ func (w *bWorld) dischargeLocationEpisode() {
 	w.specBundle(hdr)
 }
 
+// dupAttenuationEpisode: ONE Attenuate call with several caveats among which Add skips duplicates —
+// of a caveat the token already carries, or of an earlier element of the list — at every position
+// (first, in between, last).  For a verified token the verified set must gain exactly the caveats that
+// were appended, in the order appended: Validate without re-verifying must answer like the printed
+// header re-parsed and re-verified, in particular refuse a request only a NEW caveat prohibits.
+func (w *bWorld) dupAttenuationEpisode() {
+	r, o := w.r, w.o
+	ctx := context.Background()
+	var bs []*bundle.Bundle
+	var ops, outs []string
+	defer func() {
+		if p := recover(); p != nil {
+			msg := strings.ReplaceAll(strings.SplitN(fmt.Sprint(p), "\n", 2)[0], " ", "_")
+			o.emit(fmt.Sprintf("(bundle.run (scope %s) %s %s %s %s)", bundleScope, w.sxKeys(), sxTrust(w.trusted), hs(w.permLoc), strings.Join(ops, " ")), "panic:"+msg)
+		}
+	}()
+	step := func(op, out string) {
+		ops = append(ops, op)
+		outs = append(outs, out+"~"+statesStr(bs))
+	}
+	kid := w.kids[0]
+	rw := resset.ActionRead | resset.ActionWrite
+	ro := resset.ActionRead
+	carried := []macaroon.Caveat{&flyio.Organization{ID: 1, Mask: resset.ActionAll}, &rw, &macaroon.ValidityWindow{NotBefore: 0, NotAfter: 4_000_000_000}}
+	var parts []string
+	for i, n := 0, 1+r.Intn(2); i < n; i++ {
+		m, err := macaroon.New(kid, w.permLoc, w.keys[string(kid)])
+		if err != nil {
+			panic(err)
+		}
+		if err := m.Add(carried...); err != nil {
+			panic(err)
+		}
+		parts = append(parts, b64tok(w.label(), mustEnc(m)))
+	}
+	hdr := "FlyV1 " + strings.Join(parts, ",")
+	// new caveats: `ro` prohibits a write, the narrower window and the org mask are harmless for read/write now
+	fresh := []macaroon.Caveat{&ro, &macaroon.ValidityWindow{NotBefore: 0, NotAfter: 3_000_000_000}, &flyio.Organization{ID: 1, Mask: rw},
+		&flyio.Apps{Apps: resset.ResourceSet[uint64, resset.Action]{1: resset.ActionAll}}}
+	// the argument list: 1-3 distinct new caveats, then duplicates (of carried ones and of list elements) inserted anywhere
+	var list []macaroon.Caveat
+	nNew := 1 + r.Intn(3)
+	perm := []int{0, 1, 2, 3}
+	for i := len(perm) - 1; i > 0; i-- {
+		j := r.Intn(i + 1)
+		perm[i], perm[j] = perm[j], perm[i]
+	}
+	if r.Chance(2, 3) { // make sure the caveat that prohibits the write is usually among them
+		for i, x := range perm {
+			if x == 0 {
+				perm[0], perm[i] = perm[i], perm[0]
+			}
+		}
+	}
+	for _, x := range perm[:nNew] {
+		list = append(list, fresh[x])
+	}
+	for i := len(list) - 1; i > 0; i-- {
+		j := r.Intn(i + 1)
+		list[i], list[j] = list[j], list[i]
+	}
+	nDup := 1 + r.Intn(2)
+	kinds := ""
+	for d := 0; d < nDup; d++ {
+		var c macaroon.Caveat
+		if r.Bool() {
+			c = pick(r, carried)
+			kinds += "c"
+		} else {
+			c = pick(r, list)
+			kinds += "l"
+		}
+		at := r.Intn(len(list) + 1)
+		list = append(list[:at], append([]macaroon.Caveat{c}, list[at:]...)...)
+		switch {
+		case at == 0:
+			kinds += "F"
+		case at == len(list)-1:
+			kinds += "L"
+		default:
+			kinds += "M"
+		}
+	}
+	o.count("dupatt.list" + fmt.Sprint(len(list)) + "." + kinds)
+	mkReq := func(act resset.Action) (macaroon.Access, string) {
+		d := r.Dyn()
+		d.WF, d.NowSec, d.NowNsec, d.Org, d.Action = "", baseNow, 0, p64(1), act
+		d.App = p64(1)
+		return d.As("orgApp"), d.Sx("orgApp")
+	}
+	wAcc, wSx := mkReq(resset.ActionWrite)
+	rAcc, rSx := mkReq(resset.ActionRead)
+	validate := func(i int, acc macaroon.Access, sx string, tag string) {
+		err := bs[i].Validate(acc)
+		o.count("dupatt.validate." + tag + "." + flagStr(err))
+		step(fmt.Sprintf("(validate %d %s)", i, sx), flagStr(err))
+	}
+	verify := func(i int) {
+		cs, err := bs[i].Verify(ctx, w.resolver())
+		step(fmt.Sprintf("(verify %d)", i), setsStr(cs, err))
+	}
+	sets := func(i int) {
+		var p []string
+		bundle.ForEach(bs[i], func(vm *bundle.VerifiedMacaroon) { p = append(p, sxCavs(vm.Caveats.Caveats)) })
+		step(fmt.Sprintf("(sets %d)", i), "sets:"+strings.Join(p, "+"))
+	}
+	b, perr := bundle.ParseBundle(w.permLoc, hdr)
+	bs = append(bs, b)
+	e := "n"
+	if perr != nil {
+		e = "e"
+	}
+	step(fmt.Sprintf("(parse %s default)", hs(hdr)), "new0:"+e)
+	verify(0)
+	validate(0, wAcc, wSx, "before.write")
+	items := make([]string, len(list))
+	for i, c := range list {
+		items[i] = "(c " + sxCav(c) + ")"
+	}
+	aerr := b.Attenuate(list...)
+	o.count("dupatt.attenuate." + flagStr(aerr))
+	step(fmt.Sprintf("(attenuate 0 %s)", strings.Join(items, " ")), flagStr(aerr))
+	sets(0)
+	validate(0, wAcc, wSx, "after.write")
+	validate(0, rAcc, rSx, "after.read")
+	step(fmt.Sprintf("(count 0 (allows %s))", wSx), fmt.Sprint(b.Count(bundle.AllowsAccess(wAcc))))
+	step("(header 0)", hs(b.Header()))
+	bs = append(bs, b.Clone())
+	step("(clone 0)", "new1")
+	verify(1)
+	validate(1, wAcc, wSx, "reparsed.write")
+	validate(1, rAcc, rSx, "reparsed.read")
+	o.emit(fmt.Sprintf("(bundle.run (scope %s) %s %s %s %s)", bundleScope, w.sxKeys(), sxTrust(w.trusted), hs(w.permLoc), strings.Join(ops, " ")),
+		strings.Join(outs, " | "))
+}
+
 // ---- flyio/bundle.go ----
 
 // flyioEpisode: a bundle parsed with flyio.ParseBundle(WithFilter) from tokens of the four Fly.io
@@ -1775,6 +1911,7 @@ func famBundle(r *Rng, o *Out, tier string) {
 		w.partialDischargeEpisode()
 		w.failedAttenuationEpisode()
 		w.dischargeLocationEpisode()
+		w.dupAttenuationEpisode()
 		flyioEpisode(r, o)
 	}
 }
